@@ -57,6 +57,18 @@ Theorem refused_or_blocked_limit : forall s t th o,
 Proof. exact lim_refused_l. Qed.
 Print Assumptions refused_or_blocked_limit.
 
+(* MaxConns alone (scripts consisting of HTTP requests whose handlers return or panic): no
+   Return is ever rogue, the permits outstanding are exactly the requests inside the handler
+   body, so whenever no request is inside (all finished, by return or by panic) the full
+   capacity is available. *)
+Theorem maxconns_idle_means_zero : forall n scripts sched,
+  Forall (Forall is_req) scripts ->
+  let s := lexec n scripts sched in
+  lrogue s = false /\ lc s = linbody s /\
+  ((forall th, In th (lthreads s) -> lpcof th <> LInBody) -> lc s = 0).
+Proof. exact maxconns_idle_means_zero_l. Qed.
+Print Assumptions maxconns_idle_means_zero.
+
 (* ---- TaskRunner ---- *)
 
 (* cap_never_exceeded: tasks inside their body <= live task goroutines = slots taken <= n *)
@@ -102,9 +114,7 @@ Print Assumptions pool_counts.
 (* Identities: every resource id is held by at most one user and never both idle and held
    ([pholders x] sums the occurrences of x over all threads' held lists); a destroyed
    resource is neither idle nor held ever after; ids not yet created are nowhere.
-   (Users Put only what they hold: the script op PPut puts back the most recent resource.)
-   Not proved in Coq: "Get never returns an expired resource" — checked on every observed
-   history by Check.pl_scan only. *)
+   (Users Put only what they hold: the script op PPut puts back the most recent resource.) *)
 Theorem pool_exclusive : forall n ma scripts sched x,
   let s := pexec n ma scripts sched in
   pholders x s + pidle_count x s <= 1 /\
@@ -112,6 +122,28 @@ Theorem pool_exclusive : forall n ma scripts sched x,
   (pnext s <= x -> pholders x s = 0 /\ pidle_count x s = 0).
 Proof. exact pool_exclusive_l. Qed.
 Print Assumptions pool_exclusive.
+
+(* Expiry.  At every step of every schedule: a resource that a thread gains in that step
+   (its held list grows by x) is either freshly created (the next id) or was idle with a
+   lastUsed stamp that is NOT expired at that moment (age <= maxAge, or maxAge = 0 = no
+   expiry): an expired idle resource is never handed out ... *)
+Theorem pool_never_hands_out_expired : forall n ma scripts sched t s' th th' x,
+  let s := pexec n ma scripts sched in
+  pstep s t = Some s' -> nth_error (pthreads s) t = Some th -> nth_error (pthreads s') t = Some th' ->
+  pheld th' = x :: pheld th ->
+  (x = pnext s /\ pnext s' = S (pnext s)) \/
+  (exists last, In (x, last) (pidle s) /\ ~ (0 < ma /\ last + ma < pclock s)%Z).
+Proof. exact pool_never_hands_out_expired_l. Qed.
+Print Assumptions pool_never_hands_out_expired.
+
+(* ... and whatever a step destroys was idle and expired at that moment (together with
+   [pool_counts] / [pool_exclusive]: destroyed = uncounted and gone for good). *)
+Theorem pool_destroys_only_expired : forall n ma scripts sched t s' y,
+  let s := pexec n ma scripts sched in
+  pstep s t = Some s' -> In y (pdestroyed s') ->
+  In y (pdestroyed s) \/ exists last, In (y, last) (pidle s) /\ (0 < ma /\ last + ma < pclock s)%Z.
+Proof. exact pool_destroys_only_expired_l. Qed.
+Print Assumptions pool_destroys_only_expired.
 
 (* refused_or_blocked: Get at the limit with nothing idle waits (and creates nothing) *)
 Theorem blocked_pool : forall s t th,
